@@ -605,6 +605,7 @@ def event_layout(rep):
     L += filter_header(rep)
     L += tags_layout(rep)
     L += tags_writer(rep)
+    L += filter_arrays(rep)
     L += ['end Pocket.Src', '']
     return '\n'.join(L)
 
@@ -923,6 +924,49 @@ def event_store_facts(rep):
         rep['untranslatable'].append('EventStore::store_event: %s' % ex)
     L += ['end Pocket.Src', '']
     return '\n'.join(L)
+
+
+def filter_arrays(rep):
+    """`Filter::from_parts` after its header: the loops that copy ids, authors and kinds and the final copy of the tag section, as
+    random-access writes through the moving `p`"""
+    src = open(os.path.join(REPO, 'pocket-types/src/filter.rs')).read()
+    L = []
+    try:
+        _, body = fn_text(src, 'from_parts')
+        b = re.sub(r'\s+', '', body)
+        m = re.search(r'letmutp=(\d+);(.*)output\[p\.\.p\+tags\.as_bytes\(\)\.len\(\)\]\.copy_from_slice\(tags\.as_bytes\(\)\);'
+                      r'assert_eq!\(p\+tags\.as_bytes\(\)\.len\(\),length\);Ok\(Self::from_inner\(&output\[\.\.length\]\)\)$', b)
+        if not m:
+            raise Untranslatable('from_parts does not end with "p = …; loops; the tag section at p; the first `length` bytes"')
+        rest, loops = m.group(2), []
+        while rest:
+            lm = re.match(r'for(\w+)in(ids|authors|kinds)\.iter\(\)\{output\[p\.\.p\+(\d+)\]\.copy_from_slice\((\w+)(\.as_slice\(\)|\.as_ref\(\)\.to_ne_bytes\(\)\.as_slice\(\))\);p\+=(\d+);\}', rest)
+            if not lm or lm.group(1) != lm.group(4) or lm.group(3) != lm.group(6):
+                raise Untranslatable('filter arrays: statement %r' % rest[:70])
+            var, coll, w, how = lm.group(1), lm.group(2), int(lm.group(3)), lm.group(5)
+            if (coll == 'kinds') != (how != '.as_slice()') or (coll == 'kinds' and w != 2):
+                raise Untranslatable('filter arrays: %s written as %s, %d bytes' % (coll, how, w))
+            loops.append((var, coll, w))
+            rest = rest[lm.end():]
+        if sorted(c for _, c, _ in loops) != ['authors', 'ids', 'kinds']:
+            raise Untranslatable('filter arrays: loops over %s' % [c for _, c, _ in loops])
+        L += ['/-- `Filter::from_parts` after the header: the copy loops and the tag section, written through the moving `p` -/',
+              'def filterArraysWrite (ids authors : List Bytes) (kinds : List Nat) (tagBytes : Bytes) (output : Bytes) : Bytes :=',
+              '  let p := %s' % m.group(1)]
+        for var, coll, w in loops:
+            v = 'x' if var in ('id',) else var
+            L += ['  let (output, p) := %s.foldl (fun (st : Bytes × Nat) %s =>' % (coll, v),
+                  '      let (output, p) := st',
+                  '      let output := wr output (p) (%s)' % (('le16 ' + v) if coll == 'kinds' else v),
+                  '      let p := p + %d' % w,
+                  '      (output, p)) (output, p)']
+        L += ['  wr output (p) tagBytes', '']
+        rep['translated'].append('filter.rs:from_parts arrays (%s)' % ', '.join('%s×%d' % (c, w) for _, c, w in loops))
+    except Untranslatable as ex:
+        L += ['/-- the array loops of `Filter::from_parts` could not be translated: %s -/' % str(ex).replace('-/', '- /'),
+              'def filterArraysWrite (ids authors : List Bytes) (kinds : List Nat) (tagBytes : Bytes) (output : Bytes) : Bytes := untranslatable_source "Filter::from_parts arrays"', '']
+        rep['untranslatable'].append('filter arrays: %s' % ex)
+    return L
 
 
 def index_walkers(rep):
